@@ -1,4 +1,5 @@
 import PermutaModel.Lemmas.C07Sched
+import PermutaModel.Lemmas.C07Progress
 import PermutaModel.Lemmas.C02SeqOK
 import PermutaModel.Generated.Tables
 
@@ -117,5 +118,209 @@ theorem nolock_exhibits_failure :
 example :
     ((run (initSys (freshObj (.classical [[0,1]])) [[2], [3]]) [0, 0, 1, 1, 0, 0, 0, 0, 1, 1, 1, 1, 1, 1, 1, 1, 1]).threads.map
       (·.got)) = [[(2, [[1,0]])], [(3, [[2,1,0]])]] := by decide
+
+/-! ## Completeness of the answers, deadlock freedom, progress under fairness
+
+`C07L.account t` = levels already answered ++ level in flight ++ levels not yet asked for;
+`C07L.mu s` = Σ over threads of (writes left in the critical section + release + read) + `2n+4` for every
+level `n` still to fetch (acquire, at most `2n+1` writes, release, read); `C07L.AllDone s` = every thread
+is idle with nothing left to fetch.  `C07L.totalCost todos = Σ (2n+4)` over all requested levels. -/
+
+/-- **bookkeeping, every schedule, every moment**: what a thread has answered so far, followed by the level it
+    is fetching right now (if any), followed by what it has not asked for yet, is exactly its list of
+    requests — nothing is skipped, duplicated or reordered (no sequential theory needed) -/
+theorem results_complete (o : AvObj) (todos : List (List Nat)) (sched : List Nat) (tid : Nat) (t : Thread)
+    (ht : (run (initSys o todos) sched).threads[tid]? = some t) :
+    todos[tid]? = some (t.got.map (·.1) ++ pending t ++ t.todo) := by
+  have h := run_account sched (initSys o todos)
+  rw [init_account] at h
+  have := congrArg (·[tid]?) h
+  simp only [List.getElem?_map, ht, Option.map_some] at this
+  exact this.symm
+
+example : ((run (initSys (freshObj (.classical [[0,1]])) [[2, 1], [3]]) [0, 0, 1, 0, 0, 0, 0]).threads.map
+    fun t => (t.got.map (·.1), pending t, t.todo)) = [([2], [], [1]), ([], [], [3])] := by decide
+
+/-- … and in the middle of a critical section the level in flight is accounted for -/
+example : ((run (initSys (freshObj (.classical [[0,1]])) [[2, 1], [3]]) [0, 0, 1, 0]).threads.map
+    fun t => (t.got.map (·.1), pending t, t.todo)) = [([], [2], [1]), ([], [], [3])] := by decide
+
+/-- **every query returns exactly what it would return when run alone (specification form)**: a thread that
+    is finished has answered exactly its requested levels, in order, each with the specification's keys;
+    and it has not failed -/
+theorem finished_results {spec Good} (hs : SeqOK spec Good) (o : AvObj) (ho : Good o)
+    (todos : List (List Nat)) (sched : List Nat) (tid : Nat) (t : Thread)
+    (ht : (run (initSys o todos) sched).threads[tid]? = some t) (hd : Done t) :
+    todos[tid]? = some (t.got.map (·.1)) ∧ ∀ g ∈ t.got, g.2.Perm (spec g.1) := by
+  refine ⟨?_, (concurrent_correct hs o ho todos sched tid t ht).2⟩
+  have := results_complete o todos sched tid t ht
+  simpa [pending, hd.1, hd.2] using this
+
+/-- **… (run-alone form)**: the answers of a finished thread under any schedule, whatever the other threads
+    ask, agree item by item (same level, same keys up to order) with the answers of a thread that runs the
+    same requests alone on the same object under any schedule `sched'` that lets it finish -/
+theorem same_as_alone {spec Good} (hs : SeqOK spec Good) (o : AvObj) (ho : Good o)
+    (todos : List (List Nat)) (sched : List Nat) (tid : Nat) (t : Thread) (td : List Nat)
+    (htd : todos[tid]? = some td)
+    (ht : (run (initSys o todos) sched).threads[tid]? = some t) (hd : Done t)
+    (sched' : List Nat) (t' : Thread)
+    (ht' : (run (initSys o [td]) sched').threads[0]? = some t') (hd' : Done t') :
+    t.got.map (·.1) = t'.got.map (·.1) ∧
+    ∀ (i : Nat) (g g' : Nat × List NSeq), t.got[i]? = some g → t'.got[i]? = some g' → g.1 = g'.1 ∧ g.2.Perm g'.2 := by
+  obtain ⟨h1, h2⟩ := finished_results hs o ho todos sched tid t ht hd
+  obtain ⟨h1', h2'⟩ := finished_results hs o ho [td] sched' 0 t' ht' hd'
+  rw [htd] at h1
+  simp only [List.getElem?_cons_zero] at h1'
+  have hm : t.got.map (·.1) = t'.got.map (·.1) := (Option.some.inj h1).symm.trans (Option.some.inj h1')
+  refine ⟨hm, ?_⟩
+  intro i g g' hg hg'
+  have hfst : g.1 = g'.1 := by
+    have := congrArg (·[i]?) hm
+    simpa [List.getElem?_map, hg, hg'] using this
+  refine ⟨hfst, ?_⟩
+  have p1 := h2 g (List.mem_iff_getElem?.mpr ⟨i, hg⟩)
+  have p2 := h2' g' (List.mem_iff_getElem?.mpr ⟨i, hg'⟩)
+  rw [hfst] at p1
+  exact p1.trans p2.symm
+
+/-- a state in which every thread is finished is final: no schedule changes it -/
+theorem finished_is_final (s : Sys) (hd : AllDone s) (sched : List Nat) : run s sched = s :=
+  run_allDone hd sched
+
+/-- the remaining-work bound never increases and starts at `totalCost todos = Σ (2n+4)` -/
+theorem remaining_work_le (o : AvObj) (todos : List (List Nat)) (pre : List Nat) :
+    mu (run (initSys o todos) pre) ≤ totalCost todos := by
+  have := run_mu_le pre (initSys o todos)
+  rwa [init_mu] at this
+
+/-- **deadlock freedom**: after *any* schedule prefix there is a continuation — of at most
+    `mu (current state)` ≤ `Σ (2n+4)` steps — after which every thread is finished and the lock is free -/
+theorem deadlock_free {spec Good} (hs : SeqOK spec Good) (o : AvObj) (ho : Good o)
+    (todos : List (List Nat)) (pre : List Nat) :
+    ∃ cont : List Nat, cont.length ≤ mu (run (initSys o todos) pre) ∧
+      cont.length ≤ totalCost todos ∧
+      AllDone (run (initSys o todos) (pre ++ cont)) ∧ (run (initSys o todos) (pre ++ cont)).lock = none := by
+  have hr : Reach spec Good (run (initSys o todos) pre) := (Reach.init hs o ho todos).run hs pre
+  obtain ⟨cont, hlen, hdone⟩ := exists_completion hs _ hr (Nat.le_refl _)
+  have hsplit : run (initSys o todos) (pre ++ cont) = run (run (initSys o todos) pre) cont := by
+    simp [run, List.foldl_append]
+  refine ⟨cont, hlen, Nat.le_trans hlen (remaining_work_le o todos pre), ?_, ?_⟩
+  · rw [hsplit]; exact hdone
+  · rw [hsplit]; exact allDone_lock_free (hr.run hs cont).2 hdone
+
+/-- **progress under fairness**: after any prefix, any continuation that can be cut into at least
+    `mu (current state)` *fair rounds* — segments in which every thread id occurs at least once, in any order,
+    with any repetitions — ends with every thread finished and the lock free -/
+theorem fair_progress {spec Good} (hs : SeqOK spec Good) (o : AvObj) (ho : Good o)
+    (todos : List (List Nat)) (pre : List Nat) (segs : List (List Nat))
+    (hfair : ∀ seg ∈ segs, ∀ tid, tid < todos.length → tid ∈ seg)
+    (hlen : mu (run (initSys o todos) pre) ≤ segs.length) :
+    AllDone (run (initSys o todos) (pre ++ segs.flatten)) ∧
+      (run (initSys o todos) (pre ++ segs.flatten)).lock = none := by
+  have hr : Reach spec Good (run (initSys o todos) pre) := (Reach.init hs o ho todos).run hs pre
+  have hsplit : run (initSys o todos) (pre ++ segs.flatten) = run (run (initSys o todos) pre) segs.flatten := by
+    simp [run, List.foldl_append]
+  have hdone : AllDone (run (run (initSys o todos) pre) segs.flatten) := by
+    apply fair_rounds_finish hs segs hr _ hlen
+    intro seg hseg tid htid
+    rw [run_length, init_length] at htid
+    exact hfair seg hseg tid htid
+  rw [hsplit]
+  exact ⟨hdone, allDone_lock_free (hr.run hs segs.flatten).2 hdone⟩
+
+/-- instance: round-robin repeated `R ≥ Σ (2n+4)` times finishes everything, after any prefix -/
+theorem round_robin_progress {spec Good} (hs : SeqOK spec Good) (o : AvObj) (ho : Good o)
+    (todos : List (List Nat)) (pre : List Nat) (R : Nat) (hR : totalCost todos ≤ R) :
+    AllDone (run (initSys o todos) (pre ++ (List.replicate R (List.range todos.length)).flatten)) := by
+  refine (fair_progress hs o ho todos pre (List.replicate R (List.range todos.length)) ?_ ?_).1
+  · intro seg hseg tid htid
+    rw [(List.mem_replicate.mp hseg).2]
+    exact List.mem_range.mpr htid
+  · rw [List.length_replicate]
+    exact Nat.le_trans (remaining_work_le o todos pre) hR
+
+/-- **total correctness under fairness**: after any prefix followed by enough fair rounds, *every* thread
+    has terminated without error and holds exactly the specification's answer to each of its requests, in
+    order -/
+theorem fair_run_correct {spec Good} (hs : SeqOK spec Good) (o : AvObj) (ho : Good o)
+    (todos : List (List Nat)) (pre : List Nat) (segs : List (List Nat))
+    (hfair : ∀ seg ∈ segs, ∀ tid, tid < todos.length → tid ∈ seg)
+    (hlen : totalCost todos ≤ segs.length) (tid : Nat) (td : List Nat) (htd : todos[tid]? = some td) :
+    ∃ t, (run (initSys o todos) (pre ++ segs.flatten)).threads[tid]? = some t ∧ Done t ∧
+      t.got.map (·.1) = td ∧ ∀ g ∈ t.got, g.2.Perm (spec g.1) := by
+  have hdone := (fair_progress hs o ho todos pre segs hfair
+    (Nat.le_trans (remaining_work_le o todos pre) hlen)).1
+  have hlt : tid < (run (initSys o todos) (pre ++ segs.flatten)).threads.length := by
+    rw [run_length, init_length]; exact lt_of_getElem? htd
+  refine ⟨_, List.getElem?_eq_getElem hlt, hdone _ (List.getElem_mem hlt), ?_⟩
+  obtain ⟨h1, h2⟩ := finished_results hs o ho todos _ tid _ (List.getElem?_eq_getElem hlt)
+    (hdone _ (List.getElem_mem hlt))
+  rw [htd] at h1
+  exact ⟨(Option.some.inj h1).symm, h2⟩
+
+/-! ### … for the real `Av` model (sequential theory from C02) -/
+
+/-- a finished thread on an `Av` object holds exactly the specification's levels it asked for, in order -/
+theorem av_finished_results (o : AvObj) (ho : C02L.ObjInv o) (todos : List (List Nat)) (sched : List Nat)
+    (tid : Nat) (t : Thread) (ht : (run (initSys o todos) sched).threads[tid]? = some t) (hd : Done t) :
+    todos[tid]? = some (t.got.map (·.1)) ∧ ∀ g ∈ t.got, g.2.Perm (C02L.specLevel o.basis g.1) :=
+  finished_results (C02L.seqOK o.basis) o ⟨ho, rfl⟩ todos sched tid t ht hd
+
+/-- concurrent answers on an `Av` object = answers of the same requests run alone -/
+theorem av_same_as_alone (o : AvObj) (ho : C02L.ObjInv o) (todos : List (List Nat)) (sched : List Nat)
+    (tid : Nat) (t : Thread) (td : List Nat) (htd : todos[tid]? = some td)
+    (ht : (run (initSys o todos) sched).threads[tid]? = some t) (hd : Done t)
+    (sched' : List Nat) (t' : Thread)
+    (ht' : (run (initSys o [td]) sched').threads[0]? = some t') (hd' : Done t') :
+    t.got.map (·.1) = t'.got.map (·.1) ∧
+    ∀ (i : Nat) (g g' : Nat × List NSeq), t.got[i]? = some g → t'.got[i]? = some g' → g.1 = g'.1 ∧ g.2.Perm g'.2 :=
+  same_as_alone (C02L.seqOK o.basis) o ⟨ho, rfl⟩ todos sched tid t td htd ht hd sched' t' ht' hd'
+
+/-- threads sharing an `Av` object can never deadlock: from every reachable state at most `Σ (2n+4)` further
+    steps finish everybody -/
+theorem av_deadlock_free (o : AvObj) (ho : C02L.ObjInv o) (todos : List (List Nat)) (pre : List Nat) :
+    ∃ cont : List Nat, cont.length ≤ mu (run (initSys o todos) pre) ∧
+      cont.length ≤ totalCost todos ∧
+      AllDone (run (initSys o todos) (pre ++ cont)) ∧ (run (initSys o todos) (pre ++ cont)).lock = none :=
+  deadlock_free (C02L.seqOK o.basis) o ⟨ho, rfl⟩ todos pre
+
+/-- **C07, total form, for `Av`**: any basis `Av` accepts, any number of threads, any requests, any schedule
+    prefix followed by `Σ (2n+4)` fair rounds: every thread has terminated and holds, for each of its
+    requests in order, the specification's level -/
+theorem av_fair_run_correct (B : BasisV) (hB : C02L.ValidBasisV B) (todos : List (List Nat))
+    (pre : List Nat) (segs : List (List Nat))
+    (hfair : ∀ seg ∈ segs, ∀ tid, tid < todos.length → tid ∈ seg)
+    (hlen : totalCost todos ≤ segs.length) (tid : Nat) (td : List Nat) (htd : todos[tid]? = some td) :
+    ∃ t, (run (initSys (freshObj B) todos) (pre ++ segs.flatten)).threads[tid]? = some t ∧ Done t ∧
+      t.got.map (·.1) = td ∧ ∀ g ∈ t.got, g.2.Perm (C02L.specLevel B g.1) :=
+  fair_run_correct (C02L.seqOK B) (freshObj B) ⟨C02L.ObjInv.fresh hB, C02L.freshObj_basis B⟩ todos pre segs
+    hfair hlen tid td htd
+
+/-- the same from any sequentially reachable (invariant-satisfying) state of the class -/
+theorem av_fair_run_correct_from (o : AvObj) (ho : C02L.ObjInv o) (todos : List (List Nat))
+    (pre : List Nat) (segs : List (List Nat))
+    (hfair : ∀ seg ∈ segs, ∀ tid, tid < todos.length → tid ∈ seg)
+    (hlen : totalCost todos ≤ segs.length) (tid : Nat) (td : List Nat) (htd : todos[tid]? = some td) :
+    ∃ t, (run (initSys o todos) (pre ++ segs.flatten)).threads[tid]? = some t ∧ Done t ∧
+      t.got.map (·.1) = td ∧ ∀ g ∈ t.got, g.2.Perm (C02L.specLevel o.basis g.1) :=
+  fair_run_correct (C02L.seqOK o.basis) o ⟨ho, rfl⟩ todos pre segs hfair hlen tid td htd
+
+/-- non-vacuity: the workload `[[2],[3]]` costs 18, eighteen rounds `[1,0]` are fair, and the theorem
+    yields the finished thread 1 after an arbitrary prefix -/
+example : totalCost [[2], [3]] = 18 := by decide
+
+example : ∃ t, (run (initSys (freshObj (.classical [[0,1]])) [[2], [3]])
+      ([1, 1, 0] ++ (List.replicate 18 [1, 0]).flatten)).threads[1]? = some t ∧ Done t ∧
+      t.got.map (·.1) = [3] ∧ ∀ g ∈ t.got, g.2.Perm (C02L.specLevel (.classical [[0,1]]) g.1) :=
+  av_fair_run_correct (.classical [[0,1]]) (⟨by decide, by decide, by decide⟩ : C02L.ValidBasis [[0,1]]) [[2], [3]] [1, 1, 0] (List.replicate 18 [1, 0])
+    (by decide) (by decide) 1 [3] rfl
+
+/-- the bound is about *rounds*, the machine really needs several: one round-robin pass does not finish -/
+example : ((run (initSys (freshObj (.classical [[0,1]])) [[2], [3]]) [0, 1]).threads.map (·.todo)) = [[], [3]] := by
+  decide
+
+/-- concrete run of the fair schedule: both threads end with the right levels -/
+example : ((run (initSys (freshObj (.classical [[0,1]])) [[2], [3]])
+    (List.replicate 18 [1, 0]).flatten).threads.map (·.got)) = [[(2, [[1,0]])], [(3, [[2,1,0]])]] := by decide
 
 end C07
